@@ -200,7 +200,10 @@ class World:
         elif k == 'rt':
             if st.MetricValue is None:
                 st.mk_metric_value()
-            st.MetricValue.Samples = [self.dec(n), self.dec(n + 1), self.dec(n + 2)]
+            # sometimes a value without samples (sensor failure: validity changes, no samples)
+            st.MetricValue.Samples = [] if n % 5 == 0 else [self.dec(n), self.dec(n + 1), self.dec(n + 2)]
+            if n % 5 == 0:
+                st.MetricValue.MetricQuality.Validity = pm.MeasurementValidity.INVALID
         elif k == 'alert':
             vals = list(pm.AlertActivation)
             st.ActivationState = vals[n % len(vals)]
@@ -221,6 +224,14 @@ class World:
         d.SafetyClassification = vals[n % len(vals)]
         if n % 3 == 0:
             d.Type = pm.CodedValue(str(n), 'urn:verif')
+        # members the tables are indexed by (descriptions.source / condition_signaled)
+        if hasattr(d, 'Source') and isinstance(getattr(d, 'Source', None), list) and n % 2:
+            ms = self.states_of_kind('metric')
+            d.Source = [ms[n % len(ms)], ms[(n // 2) % len(ms)]][:1 + n % 2] if ms else []
+        if hasattr(d, 'ConditionSignaled') and n % 2:
+            conds = sorted(x.Handle for x in self.mdib.descriptions.objects if hasattr(x, 'Source') and x.NODETYPE.localname.endswith('ConditionDescriptor'))
+            if conds:
+                d.ConditionSignaled = conds[n % len(conds)]
 
     # ---------------- handle selection
     def states_of_kind(self, kind):
